@@ -1,7 +1,7 @@
 #!/bin/bash
-# runs every stored seeded change against the check of the property it breaks (and extra props given in meta "also")
+# runs every stored seeded change (or those whose id starts with $1) against the check of the property it breaks
 cd "$(dirname "$0")/.."
-for d in seeded/*/; do
+for d in seeded/${1:-}*/; do
   id="$(basename "$d")"
   echo "=== $id"
   tools/seeded_eval.sh "$d" "${id%%_*}" 2>&1 | grep -E "DEMO|passed|CHECK|PATCH" | cut -c1-200
